@@ -1,7 +1,7 @@
 package snowflake_proxy
 
 // C13, proxy side (injected with `go test -overlay`; never written into the
-// repository).  Reads the cases concretised by harness/cmd/sdpdrv
+// repository).  Reads the cases concretised by harness/cmd/sdpjsondrv
 // (VERIF_C13_CASES) and writes non-conforming results to VERIF_C13_OUT.
 //
 //   - "doc" cases: the string is offered to the proxy the way a client's offer
